@@ -40,6 +40,7 @@ _RULES = {
     "DOC-IN-RANGE": rules_units.rule_doc_in_range,
     "CHAR-ESCAPES": rules_units.rule_char_escapes,
     "INDEX-ELEM": rules_units.rule_index_elem,
+    "INDEX-DOMAIN": rules_units.rule_index_domain,
     "ONE-PER-ITEM": rules_units.rule_one_per_item,
     "MESSAGE-SITE": rules_more.rule_message_site,
     "DISPLAY-FIELDS": rules_more.rule_display_fields,
